@@ -651,6 +651,14 @@ def topk(t, k, dim=-1, largest=True, sorted=True):
     if not 0 <= k <= n:
         raise RuntimeError("selected index k out of range")
     V, I = _sort_impl(t, dim, largest, k)
+    if not sorted and k > 1:
+        # sorted=False: the k selected elements come back in an UNSPECIFIED order - modelled as an arbitrary permutation (free choice)
+        import itertools as _it
+        ps = list(_it.permutations(range(k)))
+        p = ps[_symx.choice(len(ps), "topk_unsorted_order")]
+        d2 = V._norm_dim(dim) if V.dim() else 0
+        V = _stack([V.select(d2, j) for j in p], d2)
+        I = _stack([I.select(d2, j) for j in p], d2)
     return _NT("topk", V, I)
 
 
